@@ -82,6 +82,15 @@ func (e *C10) one(ctx *core.Ctx) {
 		tplt.Spec.Tolerations = []corev1.Toleration{{Key: "dedicated", Operator: corev1.TolerationOpEqual, Value: "x", Effect: corev1.TaintEffectNoSchedule}}
 		userTol = 1
 	}
+	if r.Intn(5) == 0 {
+		// the template's own toleration uses the key of a default one but is not the same toleration
+		// (other effect, or bounded): the default must still be added
+		secs := int64(300)
+		tplt.Spec.Tolerations = append(tplt.Spec.Tolerations, []corev1.Toleration{
+			{Key: "node.kubernetes.io/not-ready", Operator: corev1.TolerationOpExists, Effect: corev1.TaintEffectNoSchedule},
+			{Key: "node.kubernetes.io/unreachable", Operator: corev1.TolerationOpExists, Effect: corev1.TaintEffectNoExecute, TolerationSeconds: &secs},
+		}[r.Intn(2)])
+	}
 	affMode := r.Intn(2) == 0
 	affKind := r.Intn(7)
 	switch affKind {
